@@ -130,6 +130,37 @@ def run_case(case):
     return None
 
 
+def run_presorted_case(case):
+    """Presorted fast path of set_index / sort_values: a key column that is weakly sorted across partitions,
+    with equal keys straddling a partition border, still has to end up globally sorted with truthful divisions."""
+    pdf = pd.DataFrame({"s": np.array([0, 1, 2, 3, 3, 4, 5, 6], dtype="int64"), "y": np.array([5, 1, 7, 9, 1, 3, 0, 2], dtype="int64")})
+    df = e2e.frame_from_cuts(pdf, case["cuts"], known_divisions=False)
+    if case["op"] == "set_index":
+        q = df.set_index("s", shuffle_method="tasks")
+        parts = e2e.compute_partitions(q)
+        got = pd.concat(parts)
+        want = pdf.set_index("s").sort_index(kind="stable")
+        if not e2e.same(got, want, sort_rows=True):
+            return f"set_index rows differ: {e2e.describe(got)}"
+        if not got.index.is_monotonic_increasing:
+            return f"set_index result not sorted by the new index: {got.index.tolist()}"
+        o = q.optimize()
+        if o.known_divisions:
+            divs = o.divisions
+            for i, p in enumerate(parts):
+                if len(p) and (p.index.min() < divs[i] or p.index.max() > divs[i + 1] or (p.index.max() == divs[i + 1] and i < len(parts) - 1)):
+                    return f"partition {i} holds index [{p.index.min()}, {p.index.max()}] but divisions are {divs}"
+        return None
+    q = df.sort_values(["s", "y"], shuffle_method="tasks")
+    got = pd.concat(e2e.compute_partitions(q))
+    keys = list(zip(got.s.tolist(), got.y.tolist()))
+    if keys != sorted(keys):
+        return f"sort_values(['s','y']) not globally sorted across partitions: {keys}"
+    if sorted(keys) != sorted(zip(pdf.s.tolist(), pdf.y.tolist())):
+        return "sort_values lost or duplicated rows"
+    return None
+
+
 def _cases(ctx, broken):
     cases = []
     for name, _, _, grid, _ in _knob_queries():
@@ -143,10 +174,15 @@ def _cases(ctx, broken):
         for nl, nr in ((5, 2), (9, 1)):
             cases.append({"query": "merge_left", "nl": nl, "nr": nr, "knobs": {"bc": bc, "sm": "tasks", "np": None}, "fuse": True, "cat_keys": True})
             cases.append({"query": "merge_inner", "nl": nl, "nr": nr, "knobs": {"bc": bc, "sm": "tasks", "np": None}, "fuse": True, "cat_keys": True})
+    presorted = [{"kind": "presorted", "op": op, "cuts": cuts, "query": "presorted", "knobs": {}}
+                 for op in ("set_index", "sort_values") for cuts in e2e.all_cuts(8, kmax=4)
+                 if ctx.rng.random() < (0.35 if ctx.quick else 1.0) or cuts == [0, 4, 8]]
     ctx.rng.shuffle(cases)
-    must = [c for c in cases if c.get("cat_keys")]
+    must = [c for c in cases if c.get("cat_keys")] + presorted
     if ctx.quick:
-        cases = must + cases[:230]
+        cases = must + cases[:200]
+    else:
+        cases = must + cases
     return cases
 
 
@@ -166,13 +202,13 @@ def families(ctx):
 def support(ctx, broken):
     sup = Support()
     for case in _cases(ctx, broken):
-        msg = run_case(case)
+        msg = run_presorted_case(case) if case.get("kind") == "presorted" else run_case(case)
         sup.executed += 1
         sup.count(case["query"])
         if len(sup.samples) < 3:
             sup.samples.append(case)
         if msg:
-            sig = {"kind": "knob", "query": case["query"], "broadcast": case["knobs"].get("bc"), "cat_keys": bool(case.get("cat_keys"))}
+            sig = {"kind": case.get("kind", "knob"), "query": case["query"], "broadcast": case["knobs"].get("bc"), "cat_keys": bool(case.get("cat_keys"))}
             sup.failures.append(Failure(sig=sig, case=case, detail=msg))
             if len(sup.failures) >= 8:
                 break
@@ -180,5 +216,5 @@ def support(ctx, broken):
 
 
 def replay(case):
-    msg = run_case(case)
+    msg = run_presorted_case(case) if case.get("kind") == "presorted" else run_case(case)
     return Failure(sig={}, case=case, detail=msg) if msg else None
